@@ -903,6 +903,7 @@ func checkRankComposites(c *Ctx, r *Rec, cr *collRoles) {
 		})
 		if exchangesInPlace {
 			r.skip("D8-operand-symmetry", c.fdName(fd)+"/pairwise-loops", c.pos(fd.Pos()), "the operands are exchanged in place before the loop: what is first and what is second depends on the path taken")
+			checkExchangeFlagHonoured(c, r, cr, fd, params)
 			continue
 		}
 		// pairwise loops
@@ -1476,4 +1477,146 @@ func lazilyMadeImmutable(c *Ctx, info *types.Info, f *types.Var, ws []fieldWrite
 		}
 	}
 	return true
+}
+
+// checkExchangeFlagHonoured: a ranker that exchanges its operands in place remembers that in a
+// flag and has to reverse every answer that is not Equal when the flag is set.  When one exit of
+// the method passes its answer through the flag (a helper that takes it, a condition on it) and
+// another exit behind the exchange returns a rank that is not Equal without looking at the flag,
+// that other exit answers for (second, first): the order is not antisymmetric for the inputs that
+// reach it (a proper prefix as the second operand).
+func checkExchangeFlagHonoured(c *Ctx, r *Rec, cr *collRoles, fd *ast.FuncDecl, params []*types.Var) {
+	info := cr.info
+	construct := c.fdName(fd) + "/exchange-flag"
+	// the exchange statement and the flags: boolean locals in the condition that selects it, or
+	// assigned next to it
+	var swap *ast.AssignStmt
+	inspectNoLit(fd.Body, func(x ast.Node) bool {
+		if as, ok := x.(*ast.AssignStmt); ok && as.Tok == token.ASSIGN && len(as.Lhs) == len(as.Rhs) && swap == nil {
+			for i, l := range as.Lhs {
+				for k := 0; k < 2; k++ {
+					if isObj(info, l, params[k]) && isObj(info, as.Rhs[i], params[1-k]) {
+						swap = as
+					}
+				}
+			}
+		}
+		return true
+	})
+	if swap == nil {
+		return
+	}
+	flags := map[types.Object]bool{}
+	g := newFG(info, fd.Body)
+	isBoolLocal := func(o types.Object) bool {
+		v, ok := o.(*types.Var)
+		if !ok || v.IsField() {
+			return false
+		}
+		b, ok := v.Type().Underlying().(*types.Basic)
+		return ok && b.Info()&types.IsBoolean != 0
+	}
+	if pt, ok := g.locate(swap); ok {
+		for _, ec := range g.edgeConds(pt) {
+			ast.Inspect(ec.cond, func(y ast.Node) bool {
+				if id, ok := y.(*ast.Ident); ok && info.Uses[id] != nil && isBoolLocal(info.Uses[id]) {
+					flags[info.Uses[id]] = true
+				}
+				return true
+			})
+		}
+	}
+	// a flag set in the same block as the exchange
+	ast.Inspect(fd.Body, func(x ast.Node) bool {
+		blk, ok := x.(*ast.BlockStmt)
+		if !ok {
+			return true
+		}
+		has := false
+		for _, st := range blk.List {
+			if st == ast.Stmt(swap) {
+				has = true
+			}
+		}
+		if has {
+			for _, st := range blk.List {
+				if as, ok := st.(*ast.AssignStmt); ok && len(as.Lhs) == 1 {
+					if o := identObj(info, as.Lhs[0]); o != nil && isBoolLocal(o) {
+						flags[o] = true
+					}
+				}
+			}
+		}
+		return true
+	})
+	if len(flags) == 0 {
+		r.skip("D2-mirror", construct, c.pos(swap.Pos()), "the operands are exchanged in place but no boolean flag that remembers it was found")
+		return
+	}
+	mentionsFlag := func(n ast.Node) bool {
+		hit := false
+		ast.Inspect(n, func(y ast.Node) bool {
+			if id, ok := y.(*ast.Ident); ok && flags[info.Uses[id]] {
+				hit = true
+			}
+			return true
+		})
+		return hit
+	}
+	var oriented, plain []*ast.ReturnStmt
+	inspectNoLit(fd.Body, func(x ast.Node) bool {
+		rs, ok := x.(*ast.ReturnStmt)
+		if !ok || len(rs.Results) != 1 || rs.Pos() < swap.End() {
+			return true
+		}
+		// Equal needs no orientation
+		if tv, ok := info.Types[rs.Results[0]]; ok && tv.Value != nil {
+			if v, exact := constantInt(tv); exact && v == cr.E {
+				return true
+			}
+		}
+		under := false
+		if pt, ok := g.locate(rs); ok {
+			for _, ec := range g.edgeConds(pt) {
+				if mentionsFlag(ec.cond) {
+					under = true
+				}
+			}
+		}
+		// the returned variable was reversed under the flag just before:  if flag { rank = reverse(rank) }
+		if o := identObj(info, rs.Results[0]); o != nil && !under {
+			inspectNoLit(fd.Body, func(y ast.Node) bool {
+				as, ok := y.(*ast.AssignStmt)
+				if !ok || as.Pos() > rs.Pos() || as.Pos() < swap.End() {
+					return true
+				}
+				for _, l := range as.Lhs {
+					if isObj(info, l, o) {
+						if pt, ok := g.locate(as); ok {
+							for _, ec := range g.edgeConds(pt) {
+								if mentionsFlag(ec.cond) {
+									under = true
+								}
+							}
+						}
+					}
+				}
+				return true
+			})
+		}
+		if mentionsFlag(rs.Results[0]) || under {
+			oriented = append(oriented, rs)
+		} else {
+			plain = append(plain, rs)
+		}
+		return true
+	})
+	switch {
+	case len(oriented) == 0:
+		r.skip("D2-mirror", construct, c.pos(swap.Pos()), "no exit behind the exchange looks at the flag: the design is not the flag-and-reverse one this rule knows")
+	case len(plain) > 0:
+		r.fail("D2-mirror", construct, c.pos(plain[0].Pos()), fmt.Sprintf("after the operands were exchanged in place the exit at %s passes its answer through the flag, but the exit at %s returns %s without looking at it: for the inputs that reach that exit after an exchange (the second operand a proper prefix of the first) the answer is the one for (second, first), so RankValues(a, b) and RankValues(b, a) say the same", c.pos(oriented[0].Pos()), c.pos(plain[0].Pos()), exprStr(plain[0].Results[0])))
+	default:
+		r.ok("D2-mirror", construct, c.pos(swap.Pos()), fmt.Sprintf("all %d exits behind the exchange that can answer something else than Equal look at the flag", len(oriented)))
+	}
 }
